@@ -162,8 +162,25 @@ type Sched struct {
 	lockVCs    map[interface{}]*lockVC
 	mainDone   bool
 	clock      int
-	// AfterStep, if set, is called (on the running thread) after every scheduling decision.
-	names map[string]int
+	lockNames map[interface{}]string
+}
+
+// lockName returns a name for the lock that is stable across executions of the same schedule
+// (locks are numbered in the order of their first use; addresses would differ between runs).
+func lockName(m interface{}, prefix string) string {
+	s := active
+	if s == nil {
+		return prefix
+	}
+	if s.lockNames == nil {
+		s.lockNames = map[interface{}]string{}
+	}
+	n, ok := s.lockNames[m]
+	if !ok {
+		n = fmt.Sprintf("%s%d", prefix, len(s.lockNames)+1)
+		s.lockNames[m] = n
+	}
+	return n
 }
 
 type lockVC struct{ w, r vclock }
@@ -592,7 +609,7 @@ type Mutex struct {
 	locked bool
 }
 
-func (m *Mutex) name() string { return fmt.Sprintf("M%p", m) }
+func (m *Mutex) name() string { return lockName(m, "M") }
 
 // Lock locks m.
 func (m *Mutex) Lock() {
@@ -656,7 +673,7 @@ type RWMutex struct {
 	rholders map[int]int
 }
 
-func (m *RWMutex) name() string { return fmt.Sprintf("RW%p", m) }
+func (m *RWMutex) name() string { return lockName(m, "RW") }
 
 // Lock locks m for writing.
 func (m *RWMutex) Lock() {
